@@ -24,7 +24,7 @@ THEOREMS = [
 MODULE = "LV.Forward.Props"
 TARGETS = ["theories/Forward/Props.vo", "theories/Forward/Exec.vo",
            "theories/Forward/Examples.vo"]
-HARNESS = ["htlcswitch/verif_threehop_test.go"]
+HARNESS = ["htlcswitch/verif_threehop_test.go", "htlcswitch/verif_threehop_sp_test.go"]
 WARM = [{"pkg": "htlcswitch", "files": HARNESS}]
 IMPORTS = ("From Coq Require Import List NArith ZArith.\nImport ListNotations.\n"
            "From LV Require Import Forward.Model Forward.Exec.\n")
@@ -110,6 +110,8 @@ def to_events(case):
                     emit("ECirc %s AInFail" % ck(*k), i)
         elif t == "c":
             op = e[1]
+            if op == "commit" and e[5]:
+                continue      # the circuit batch was not written (database stop point)
             if op == "commit":
                 for k in e[2]:
                     fresh.add(tuple(k))
@@ -442,6 +444,10 @@ def at_most_once(case):
                 out.append("incoming htlc %s handed to outgoing channel %s (event %d) after its circuit was "
                            "torn down with a response (event %d)"
                            % (list(k), [late[0][1], late[0][2]], late[0][0], torn[k]))
+    for i, e in enumerate(ev):
+        if e[0] == "e" and e[1] == "spurious":
+            out.append("a settle/fail was delivered to the incoming link of an htlc that is gone or already "
+                       "answered (event %d): %s" % (i, e[2][:160]))
     for k, lst in resp_at.items():
         for i1, i2 in zip(lst, lst[1:]):
             if not any(ev[j][0] == "x" and ev[j][1] == "restart" for j in range(i1 + 1, i2)):
@@ -531,6 +537,35 @@ def slim(case, around=None):
     return c
 
 
+def sp_variant(case):
+    """'' for ordinary batches / directed scenarios / baselines, else flap|restart|restartflap|db"""
+    return ((case.get("extra") or {}).get("sp") or {}).get("variant", "")
+
+
+def sp_coverage(rows):
+    sp = [c for c in rows if (case_sp(c) is not None)]
+    base = [c for c in sp if not sp_variant(c)]
+    runs = [c for c in sp if sp_variant(c)]
+    return {
+        "base_scenarios": {case_sp(c)["scenario"]: {"hook_hits": len(c["extra"].get("hook_hits", [])),
+                                                    "transactions": c["extra"].get("transactions")}
+                           for c in base},
+        "stop_point_universe": sum(3 * len(c["extra"].get("hook_hits", [])) + (c["extra"].get("transactions") or 0)
+                                   for c in base),
+        "stop_points_run": len(runs),
+        "fired": sum(1 for c in runs if c["extra"].get("fired")),
+        "by_variant": {v: sum(1 for c in runs if sp_variant(c) == v)
+                       for v in ("flap", "restart", "restartflap", "db")},
+        "by_hook": {h: sum(1 for c in runs if (c["extra"].get("baseline_hook") or "").split(":")[-1]
+                           .split("_")[0] == h)
+                    for h in ("dequeue", "decode", "commit", "fwd", "nfwd", "signed", "send")},
+    }
+
+
+def case_sp(case):
+    return (case.get("extra") or {}).get("sp")
+
+
 def run_switch_stage(ctx):
     """Extra stage of C07 ("the switch forwards each HTLC at most once and relays at most one
     response") at the level of the RUNNING switch: the three-hop harness (directed disconnect /
@@ -539,7 +574,7 @@ def run_switch_stage(ctx):
     Coverage goes to ctx.cov["switch_stage"]; violations are reported on ctx (i.e. under C07)."""
     import shutil
     puid = ctx.uid("_sw_p%d" % os.getpid())
-    env = {"VERIF_CASES": 12 if ctx.thorough else 3}
+    env = {"VERIF_CASES": 12 if ctx.thorough else 3, "VERIF_C08_SP": 60 if ctx.thorough else 6}
     rc, trace, out = run_harness(puid, "htlcswitch", HARNESS, "^TestVerifThreeHop$", env=env, timeout=2400)
     rows = read_jsonl(trace)
     shutil.rmtree(os.path.join(os.path.dirname(trace), "overlay", puid), ignore_errors=True)
@@ -585,6 +620,7 @@ def run_switch_stage(ctx):
         "restarts": sum(1 for c in rows for e in c["events"]
                         if e[0] == "x" and e[1] in ("restart", "linkrestart")),
         "predicate_failures": nbad,
+        "stop_points": sp_coverage(rows),
     }
 
 
@@ -633,7 +669,16 @@ def run(ctx):
                               signature="threehop %s" % f[0][1][:60])
         elif stuck:
             lost = packet_lost_at_link_stop(c)
-            if funds_missing(c):
+            if sp_variant(c):
+                # a tiny deterministic scenario with ONE fault and generous timeouts: not resolving is
+                # the "nothing is left dangling" clause itself
+                ctx.violation("impl_violates_predicate", "C08_quiescent_balance",
+                              {"case": slim(c), "stop_point": case_sp(c), "link_failures": linkfail,
+                               "fails": ["htlcs / circuits left dangling after stop point %s (%s): %s; payments %s"
+                                         % (c["fault"], c["extra"].get("baseline_hook", "transaction"),
+                                            c["why"], [p["result"] for p in c["pays"]])]},
+                              signature="threehop stop-point dangling %s" % c["fault"])
+            elif funds_missing(c):
                 ctx.violation("impl_violates_predicate", "C08_quiescent_balance",
                               {"case": slim(c), "fails": ["value vanished; network not quiescent: " + c["why"]]},
                               signature="threehop funds missing")
@@ -654,6 +699,11 @@ def run(ctx):
                               {"case": slim(c), "link_failures": linkfail}, signature="threehop harness",
                               failing_input=False)
     # correspondence: the model must accept the trace and agree on the end state
+    # Rows of DATABASE stop points are judged by the predicates only: the model's steps are whole
+    # handlers (e.g. signature + circuit deletion + mailbox ack are one step), a stop between two
+    # transactions of one handler is outside the model.
+    all_rows = rows
+    rows = [c for c in all_rows if sp_variant(c) != "db"]
     terms, evmaps, probs_all = [], [], []
     for c in rows:
         evs, probs = to_events(c)
@@ -696,6 +746,7 @@ def run(ctx):
                       {"log": pr["log"][-4000:]}, signature="proof", failing_input=False)
     kinds, results, evk, mev = {}, {}, {}, {}
     npay = 0
+    sp_rows = [c for c in all_rows if sp_variant(c)]
     for c, evs in zip(rows, evmaps):
         for p in c["pays"]:
             npay += 1
@@ -711,20 +762,22 @@ def run(ctx):
                 (t.split()[-1] if t.startswith("ECirc") else t.split()[0])
             mev[k] = mev.get(k, 0) + 1
     ctx.cov.update({
-        "evaluations": len(rows),
+        "evaluations": len(all_rows),
         "distinct_nontrivial": distinct_count(
-            [c for c in rows if len(c["pays"]) >= 2],
+            [c for c in rows if len(c["pays"]) >= 2 or sp_variant(c)],
             lambda c: [t for t, _ in to_events(c)[0]]),
         "rule": "one evaluation = one batch of 3-10 (thorough: 3-24) concurrent payments both directions on a "
                 "fresh three-hop network with the faults of its mode (flap, drop+flap, restart, drop+restart, "
                 "2-3 faults, delays, crossflap) or the directed restart scenario; non-trivial = at least 2 "
                 "payments; distinct by the full observed model-event order",
         "traces_validated_against_impl": len(rows),
+        "traces_judged_by_the_predicates_only_db_stop_points": len(all_rows) - len(rows),
         "payments": npay, "payment_kinds": kinds, "kind_results": results,
         "impl_event_kinds": evk, "model_event_kinds": mev,
         "model_events_total": sum(len(e) for e in evmaps),
         "faults": {c["fault"]: sum(1 for x in rows if x["fault"] == c["fault"]) for c in rows},
-        "quiescent_cases": sum(1 for c in rows if c["quiescent"]),
+        "quiescent_cases": sum(1 for c in all_rows if c["quiescent"]),
+        "stop_points": sp_coverage(all_rows),
         "partially_acked_package_replays": sum(partial_replays(c) for c in rows),
         "messages_lost_or_stale": sum(c.get("dropped", 0) for c in rows),
         "forwards_bounced_by_the_outgoing_link": sum(1 for c in rows for e in c["events"]
